@@ -107,9 +107,17 @@ AclO = U.opaque("AclO")
 ONR = U.record("ONR", dict(new_files=FileDict, safe_new_files=FileDict, new_json_fragment_files=FragD,
                            safe_new_json_fragment_files=FragD, acl_rules=AclO, acl_safe_rules=AclO))
 
-M.contract(FT, "OldNewResult.get_new_files", params=dict(self=ONR, safe=BOOL), defaults=dict(safe=False), ret=FileDict,
+def _onr_inputs():
+    import types
+    for safe in (False, True):
+        for nf, snf in (({}, {}), ({"/a": ("x", "r")}, {}), ({"/a": ("x", "r")}, {"/a": ("y", "r")}), ({}, {"/b": ("z", "")})):
+            yield dict(self=types.SimpleNamespace(new_files=nf, safe_new_files=snf, new_json_fragment_files={"f": ({"k": 1}, None)},
+                                                  safe_new_json_fragment_files={}, acl_rules=None, acl_safe_rules=None), safe=safe)
+
+
+M.contract(FT, "OldNewResult.get_new_files", inputs=_onr_inputs, params=dict(self=ONR, safe=BOOL), defaults=dict(safe=False), ret=FileDict,
            ensures=["result == (self.safe_new_files if safe else self.new_files)"], canaries=["result == self.new_files"],
            properties=["C19"])
-M.contract(FT, "OldNewResult.get_new_file_fragments", params=dict(self=ONR, safe=BOOL), defaults=dict(safe=False), ret=FragD,
+M.contract(FT, "OldNewResult.get_new_file_fragments", inputs=_onr_inputs, params=dict(self=ONR, safe=BOOL), defaults=dict(safe=False), ret=FragD,
            ensures=["result == (self.safe_new_json_fragment_files if safe else self.new_json_fragment_files)"],
            canaries=["result == self.new_json_fragment_files"], properties=["C19"])
